@@ -120,3 +120,76 @@ func init() {
 		TVVectors: 3,
 	})
 }
+
+func c04jobs(harness string, tier string) []Job {
+	var jobs []Job
+	n := 3
+	ixm := "rev"
+	typeSets := []string{"int", "float", "bool", "string", "enum", "bool,int"}
+	if tier == "thorough" {
+		n = 4
+		ixm = "any"
+		typeSets = append(typeSets, "string,int", "int,float", "enum,bool")
+	}
+	for _, ts := range typeSets {
+		for _, nl := range []string{"true", "false"} {
+			nn := n
+			if tier == "thorough" && (ts != "int") {
+				nn = 3
+			}
+			slots := "017"
+			if tier == "thorough" && ts == "int" {
+				slots = "all"
+				nn = 3
+			}
+			p := P("types", ts, "n", itoa(nn), "null", nl, "ix", ixm, "agg", "none", "cols", "given", "slots", slots)
+			jobs = append(jobs, Job{Harness: harness, Params: p, MaxPaths: 200000})
+			if harness == "VX_C05_distinct" && (ts == "int" || ts == "string,int") {
+				q := P("types", ts, "n", itoa(nn), "null", nl, "ix", ixm, "agg", "none", "cols", "all", "slots", "017")
+				jobs = append(jobs, Job{Harness: harness, Params: q, MaxPaths: 200000})
+			}
+		}
+	}
+	if harness == "VX_C04_groupby" {
+		an := "3"
+		if tier == "thorough" {
+			an = "4"
+		}
+		jobs = append(jobs, Job{Harness: harness, Params: P("types", "bool", "n", an, "null", "false", "ix", ixm, "agg", "all", "cols", "given", "slots", "0", "kconc", "1"), MaxPaths: 200000})
+		jobs = append(jobs, Job{Harness: harness, Params: P("types", "", "n", "2", "null", "false", "ix", ixm, "agg", "all", "cols", "given", "slots", "017")})
+	}
+	return jobs
+}
+
+func init() {
+	assume := []string{
+		"internal/hash.HashBytes is an uninterpreted function H(bytes,seed) (functional consistency only): the solver picks every collision and probe chain; except where slots=all the low 3 bits of hash values are restricted to {0,1,7} (same slot, probe chain, wrap-around of the 8-slot table), upper bits free",
+		"math/rand.Uint64 (hash of non-equal nulls) is an unconstrained value",
+		"float sums are compared as identical floating-point terms (same operations in frame order)",
+		"user aggregation functions are uninterpreted",
+	}
+	register(&Property{
+		ID: "C04", Dirs: []string{"root"},
+		Jobs:   func(tier string) []Job { return c04jobs("VX_C04_groupby", tier) },
+		Bounds: func(tier string) string {
+			if tier == "thorough" {
+				return "n=4 rows (int key) / n=3 (other key types) of P=n+1 physical rows in every arrangement, 1-2 key columns of all five types, both Null settings, 8 aggregations; hash table of 8 slots (no growth step reached end-to-end)"
+			}
+			return "n=3 rows of P=4 physical rows (fixed non-identity arrangement), 1-2 key columns of all five types, both Null settings, 8 aggregations (on a concrete bool key pattern and without key; cell values symbolic); hash table of 8 slots"
+		},
+		Assume: assume, Outside: []string{"more than 2 key columns", "tables larger than 8 slots / growth steps (grouping more than 4 distinct keys)", "GroupStats values"},
+		MinReach: []string{"end"}, TVVectors: 2, Solver: "z3-new -in",
+	})
+	register(&Property{
+		ID: "C05", Dirs: []string{"root"},
+		Jobs:   func(tier string) []Job { return c04jobs("VX_C05_distinct", tier) },
+		Bounds: func(tier string) string {
+			if tier == "thorough" {
+				return "n=4 rows (int key) / n=3 (other key types) of P=n+1 physical rows in every arrangement, 1-2 key columns of all five types or all columns, both Null settings"
+			}
+			return "n=3 rows of P=4 physical rows (fixed non-identity arrangement), 1-2 key columns of all five types or all columns, both Null settings"
+		},
+		Assume: assume[:2], Outside: []string{"more than 2 key columns", "tables larger than 8 slots / growth steps"},
+		MinReach: []string{"end"}, TVVectors: 2, Solver: "z3-new -in",
+	})
+}
